@@ -183,6 +183,17 @@ def listed():
     add("mesyl-cyanide", [N, C, S6, O, O, C], [(0, 1, 3), (1, 2, 1), (2, 3, 2), (2, 4, 2), (2, 5, 1)])
     add("sulfur-diimide-oxide+ethyne", [S6, N, N, O, C, C], [(0, 1, 2), (0, 2, 2), (0, 3, 2), (4, 5, 3)])
     add("metaphosphate-ester", [C, O, P5, O, O], [(0, 1, 1), (1, 2, 1), (2, 3, 2), (2, 4, 2)])
+    # P(III) / S(II) with several O / N neighbours (the expanded valence of the centre must not win over the neutral one), in the
+    # atom order centre-first and centre-last
+    P3 = ("P", 3)
+    add("trimethyl-phosphite", [P3, O, O, O, C, C, C], [(0, 1, 1), (0, 2, 1), (0, 3, 1), (1, 4, 1), (2, 5, 1), (3, 6, 1)])
+    add("trimethyl-phosphite-P-last", [O, O, O, C, C, C, P3], [(6, 0, 1), (6, 1, 1), (6, 2, 1), (0, 3, 1), (1, 4, 1), (2, 5, 1)])
+    add("triaminophosphine", [P3, N, N, N], [(0, 1, 1), (0, 2, 1), (0, 3, 1)])
+    add("phosphorous-acid-P(OH)3", [P3, O, O, O], [(0, 1, 1), (0, 2, 1), (0, 3, 1)])
+    add("phosphoramidite", [P3, O, O, N, C, C, C, C], [(0, 1, 1), (0, 2, 1), (0, 3, 1), (1, 4, 1), (2, 5, 1), (3, 6, 1), (3, 7, 1)])
+    add("1,2,5-thiadiazole", [S2, N, C, C, N], [(0, 1, 1), (1, 2, 2), (2, 3, 1), (3, 4, 2), (4, 0, 1)])
+    add("sulfur-diamide", [S2, N, N], [(0, 1, 1), (0, 2, 1)])
+    add("dimethoxy-sulfane", [S2, O, O, C, C], [(0, 1, 1), (0, 2, 1), (1, 3, 1), (2, 4, 1)])
     add("cyclopentadiene", [C] * 5, [(0, 1, 2), (1, 2, 1), (2, 3, 2), (3, 4, 1), (4, 0, 1)])
     add("anthracene", [C] * 14, [(0, 1, 2), (1, 2, 1), (2, 3, 2), (3, 4, 1), (4, 5, 2), (5, 0, 1), (4, 6, 1), (6, 7, 2), (7, 8, 1),
                                   (8, 9, 2), (9, 5, 1), (7, 10, 1), (10, 11, 2), (11, 12, 1), (12, 13, 2), (13, 8, 1)])
